@@ -56,10 +56,13 @@ func (s *sorts) of(t types.Type) string {
 		}
 		if st, ok := u.Underlying().(*types.Struct); ok {
 			name := structSortName(u)
-			if !s.done[name] && len(s.inprog) == 0 {
+			if !s.done[name] && !s.inprog[name] {
 				// deterministic cycle breaking: start from the canonically smallest struct of the same cycle
 				if r := canonicalRoot(u); r != nil && r != u {
-					s.of(r)
+					rn := structSortName(r)
+					if !s.done[rn] && !s.inprog[rn] {
+						s.of(r)
+					}
 				}
 			}
 			s.declStruct(name, st)
@@ -154,6 +157,8 @@ func (s *sorts) opq(hint string) string {
 	return name
 }
 
+// mentions: does t directly contain (through slices, arrays, maps, aliases and anonymous structs, but not through
+// the fields of another named struct) the struct target?  Used for DFS back-edge detection in declStruct.
 func mentions(t types.Type, target *types.Struct, seen map[types.Type]bool) bool {
 	if seen[t] {
 		return false
@@ -163,6 +168,9 @@ func mentions(t types.Type, target *types.Struct, seen map[types.Type]bool) bool
 	case *types.Named:
 		if isNodeType(u) {
 			return false
+		}
+		if st, ok := u.Underlying().(*types.Struct); ok {
+			return st == target
 		}
 		return mentions(u.Underlying(), target, seen)
 	case *types.Alias:
